@@ -124,7 +124,7 @@ func (b *builder) mk(k string) Op {
 			}
 			return b.mkInst(0, -1, -1)
 		}
-		return b.mkRec(b.from("inst", cand))
+		return b.mkRec(b.from("inst", cand), -1)
 	case "span":
 		ts := cat(b.vis.tracer, b.loc.tracer)
 		if len(ts) == 0 {
@@ -199,11 +199,25 @@ func (b *builder) mkUnreg(c int) Op {
 	return Op{K: "unreg", CB: c}
 }
 
-func (b *builder) mkRec(i int) Op {
+// mkRec: special -1 drawn / 0 a coded value / 1 a special value.
+func (b *builder) mkRec(i, special int) Op {
 	in := b.insts[i]
 	op := Op{K: "rec", U: i, Bit: b.bits[in.ident]}
 	b.bits[in.ident]++
-	if kinds[in.kind].shape == shapeUpDown {
+	if special < 0 {
+		special = 0
+		if rapid.IntRange(0, 4).Draw(b.t, "special_value") == 0 {
+			special = 1
+		}
+	}
+	if special == 1 {
+		// a value outside the 4^k code (zero, extreme, float specials) in a
+		// data point of its own; zero is the most frequent
+		op.Sv = 1
+		if rapid.IntRange(0, 9).Draw(b.t, "nonzero") >= 4 {
+			op.Sv = rapid.SampledFrom(svAllowed(kinds[in.kind])).Draw(b.t, "sv")
+		}
+	} else if kinds[in.kind].shape == shapeUpDown {
 		op.Neg = rapid.Bool().Draw(b.t, "neg")
 	}
 	if rapid.IntRange(0, 3).Draw(b.t, "attr") == 0 {
@@ -220,7 +234,7 @@ func (b *builder) mkReg(m int, cand []int, n int) Op {
 		is = append(is, rem[j])
 		rem = append(rem[:j], rem[j+1:]...)
 	}
-	op := Op{K: "reg", U: m, CB: len(b.cbs), Is: is, Y: rapid.SampledFrom([]int{0, 1, 1, 2, 2, 2, 3}).Draw(b.t, "cb_delay")}
+	op := Op{K: "reg", U: m, CB: len(b.cbs), Is: is, Z: rapid.Bool().Draw(b.t, "observe_zero_too"), Y: rapid.SampledFrom([]int{0, 1, 1, 2, 2, 2, 3}).Draw(b.t, "cb_delay")}
 	b.cbs = append(b.cbs, gCB{meter: m, insts: is})
 	b.loc.cb = append(b.loc.cb, op.CB)
 	return op
@@ -228,7 +242,7 @@ func (b *builder) mkReg(m int, cand []int, n int) Op {
 
 // mkInst creates an instrument: obs -1 any / 0 synchronous / 1 observable; on
 // meter slot m (or any visible one when m < 0); bad -1 drawn / 0 valid name /
-// 1..3 a name the SDK refuses.
+// 1..3 a name the SDK refuses / 4 a name the refusing wrapper provider refuses.
 func (b *builder) mkInst(obs, m, bad int) Op {
 	if m < 0 {
 		ms := cat(b.vis.meter, b.loc.meter)
@@ -247,11 +261,18 @@ func (b *builder) mkInst(obs, m, bad int) Op {
 	op := Op{K: "inst", D: len(b.insts), U: m, Kd: kd, N: b.pick("name", 2)}
 	if bad < 0 {
 		bad = 0
-		if rapid.IntRange(0, 11).Draw(b.t, "bad_name") == 0 {
+		switch rapid.IntRange(0, 11).Draw(b.t, "bad_name") {
+		case 0:
 			bad = rapid.IntRange(1, 3).Draw(b.t, "bad_kind")
+		case 1:
+			bad = 4
 		}
 	}
-	op.Bad = bad
+	if bad == 4 {
+		op.Ref = true // refused with (nil, err) when the installed provider is the refusing wrapper
+	} else {
+		op.Bad = bad
+	}
 	if op.Bad == 0 && kinds[kd].obs && rapid.IntRange(0, 2).Draw(b.t, "option_callback") == 0 {
 		op.OC, op.CB = true, len(b.cbs)
 		b.cbs = append(b.cbs, gCB{meter: m, insts: []int{op.D}, opt: true})
@@ -313,6 +334,7 @@ func gen(t *rapid.T) Case {
 	b := &builder{t: t, bits: map[string]int{}}
 	c := Case{Runs: 2}
 	c.Readers = rapid.SampledFrom([]int{1, 1, 2, 2, 2, 3}).Draw(t, "readers")
+	c.Wrap = rapid.IntRange(0, 9).Draw(t, "refusing_wrapper") < 4
 	b.readers = c.Readers
 	storm := rapid.IntRange(0, 9).Draw(t, "storm") < 5
 	var stormCBs []int
@@ -344,7 +366,7 @@ func gen(t *rapid.T) Case {
 				}
 				if rapid.IntRange(0, 3).Draw(t, "storm_rejected") == 0 {
 					// an observable instrument the SDK will refuse and a callback on it
-					iop := b.mkInst(1, mop.D, rapid.IntRange(1, 3).Draw(t, "bad_kind"))
+					iop := b.mkInst(1, mop.D, rapid.IntRange(1, 4).Draw(t, "bad_kind"))
 					rop := b.mkReg(mop.D, []int{iop.D}, 1)
 					ops = append(ops, iop, rop)
 					if rapid.Bool().Draw(t, "unreg_rejected") {
@@ -438,7 +460,10 @@ func gen(t *rapid.T) Case {
 		var ops []Op
 		for _, i := range b.vis.inst {
 			if !kinds[b.insts[i].kind].obs && b.bits[b.insts[i].ident] < maxBits {
-				ops = append(ops, b.mkRec(i))
+				ops = append(ops, b.mkRec(i, 0))
+			}
+			if !kinds[b.insts[i].kind].obs && b.bits[b.insts[i].ident] < maxBits && rapid.Bool().Draw(t, "sweep_special") {
+				ops = append(ops, b.mkRec(i, 1))
 			}
 		}
 		for _, tr := range b.vis.tracer {
